@@ -66,7 +66,9 @@ LEVEL_TEXT = ("Proved in Lean for all corpora (any number of jobs, any nesting d
               "symmetric in the two projects, never fires on a project compared with itself or when either side "
               "has no keys; difference(ignore_values=True) is exactly the keys the other side lacks and a subset of "
               "the full difference; the gate is NOT independent of the job order (syncGate_perm_false, the F-6a "
-              "slot clash), which is why the observed index order is passed to the model.")
+              "slot clash), which is why the observed index order is passed to the model; it IS independent of the "
+              "order of a side without a bool/int clash (syncGate_perm_partial, detectSchema_perm_schemaEq_partial), "
+              "the reported key set never depends on the order (detectSchema_perm_keys), schemaEq is transitive.")
 LEVEL_NOTE = ("Trusted: Lean kernel; axioms propext/Classical.choice/Quot.sound; the harness (generator, wire "
               "format, brute-force oracle). Modelled, not verified: CPython hashing/equality and set/dict slot "
               "behaviour, index iteration order (observed per call). The model has the current "
